@@ -78,6 +78,9 @@ RT(sc) == IF "rt" \in DOMAIN sc THEN sc.rt ELSE [on |-> FALSE, K |-> 0, strict |
 DataOn(sc)  == IF "datahist"  \in DOMAIN sc THEN sc.datahist  ELSE TRUE
 CauseOn(sc) == IF "causehist" \in DOMAIN sc THEN sc.causehist ELSE TRUE
 
+\* debug mode: the World records an execution graph; the reference keeps the set of steps to compare it with
+DebugOn(sc) == IF "debug" \in DOMAIN sc THEN sc.debug ELSE FALSE
+
 ----------------------------------------------------------------------------
 (* History.                                                                *)
 
@@ -93,6 +96,9 @@ InitH(sc) ==
    prod  |-> [s \in Sids(sc) |-> <<>>],     \* productions [ot, vals]
    deliv |-> {}, delivI |-> {},             \* delivered <<conn, production>> of event connections
    setd  |-> {},                            \* set_data values waiting for the target's next step
+   lastse |-> "",                           \* the simulator whose step returned last (rt_check reports about it)
+   steps |-> {},                            \* <<sim, tiered time>> of every step begun (kept in debug mode only)
+   atT   |-> [t \in 0..sc.until |-> 0],     \* number of steps begun at integer time t (all simulators)
    mal   |-> None,                          \* <<sim, what>> after a malformed reply
    fault |-> None,                          \* <<sim, kind>> after an injected simulator failure
    stops |-> [s \in Sids(sc) |-> 0],        \* stop/finalize calls received
@@ -263,7 +269,9 @@ RefSB(sc, h, ev) ==
                       !.prom[s] = IF CauseOn(sc) THEN Append(@, [t |-> t, m |-> ev.m]) ELSE @,
                       !.deliv = IF DataOn(sc) THEN @ \cup UNION {{<<i, pi>> : pi \in EvCands(sc, h, i, tau)} : i \in evIn} ELSE @,
                       !.delivI = IF DataOn(sc) THEN @ \cup UNION {{<<i, pi>> : pi \in EvCandsI(sc, h, i, tau)} : i \in evIn} ELSE @,
-                      !.setd = @ \ SetdFor(h, s)],
+                      !.setd = @ \ SetdFor(h, s),
+                      !.steps = IF DebugOn(sc) THEN @ \cup {<<s, tau>>} ELSE @,
+                      !.atT[t] = @ + 1],
       v |-> v]
 
 RefSE(sc, h, ev) ==
@@ -277,7 +285,8 @@ RefSE(sc, h, ev) ==
   IN [h |-> [h EXCEPT !.dem[s] = IF sched THEN @ \cup {Flat(sc, s, ev.n)} ELSE @,
                       !.cz[s]  = IF sched /\ CauseOn(sc) THEN @ \cup {<<Flat(sc, s, ev.n), c>> : c \in me} ELSE @,
                       !.infl[s] = IF ev.nodata THEN None ELSE @,
-                      !.mal = IF malformed /\ h.mal = None THEN <<s, "next_step">> ELSE @],
+                      !.mal = IF malformed /\ h.mal = None THEN <<s, "next_step">> ELSE @,
+                      !.lastse = s],
       v |-> NoV]
 
 RefDE(sc, h, ev) ==
@@ -331,10 +340,18 @@ RefCB(sc, h, ev) ==
                \o Cond((~on) => ev.res = "SimulationError", "C17_set_event_outside_real_time_mode_not_refused", <<s, t, ev.res>>)]
   ELSE [h |-> h, v |-> NoV]
 
+\* A simulator that is connected to another one waits for that one's progress, and progress is capped by the
+\* wall clock: it can begin its step for t only after wall-clock time t and is therefore ALWAYS behind (finding D30).
+\* An independent simulator (no connection to another simulator) that answers instantly can be behind only by the
+\* strictly increasing clock reads (late = 0 ticks, finding D19); if it is behind by more, a wake-up was missed.
+Connected(sc, s) == \E i \in CIdx(sc) : LET c == Conn(sc, i) IN (c.src = s \/ c.dst = s) /\ c.src # c.dst
 RefLOG(sc, h, ev) ==
   IF ev.cat = "too_slow" THEN
      [h |-> [h EXCEPT !.slow = @ + 1],
-      v |-> Cond(~RT(sc).instant, "C17_instant_run_reported_too_slow", <<ev.w>>)]
+      v |-> IF ~RT(sc).instant THEN NoV
+            ELSE IF ev.late <= 0 \/ h.lastse = "" THEN Viol("C17_instant_run_reported_too_slow", <<ev.w, ev.late>>)
+            ELSE IF Connected(sc, h.lastse) THEN Viol("C17_instant_run_reported_too_slow__sig_connected_simulator_behind_wall_clock", <<h.lastse, ev.w, ev.late>>)
+            ELSE Viol("C17_instant_independent_simulator_began_late", <<h.lastse, ev.w, ev.late>>)]
   ELSE IF ev.cat = "event_after_end" THEN [h |-> [h EXCEPT !.warned = @ + 1], v |-> NoV]
   ELSE [h |-> h, v |-> NoV]
 
@@ -354,7 +371,13 @@ RefFaultEND(sc, h, ev) ==
 
 RefEND(sc, h, ev) ==
   LET lost == \E s \in Sids(sc) : h.dem[s] # {}
+      \* the loop guard is justified if the named simulator's next step is beyond the bound in the scheduler's tiered
+      \* arithmetic (guardJust) AND -- independently of that arithmetic -- a same-time loop is really in progress
+      \* (guardCount): the chain of at least maxloop weak hops that leads to the refused sub-step consists of steps
+      \* performed at this integer time, so at least maxloop steps began at it ("sub-steps within one time step")
       guardJust == \E s \in ev.names : h.dem[s] # {} /\ OverLoop(sc, TMin(h.dem[s]))
+      guardCount == \E s \in ev.names : h.dem[s] # {} /\ OverLoop(sc, TMin(h.dem[s]))
+                                         /\ h.atT[TMin(h.dem[s])[1]] >= sc.maxloop
       v == IF h.fault # None THEN RefFaultEND(sc, h, ev)
            ELSE IF h.mal # None THEN
               Cond(ev.r # "ok", "C13_malformed_reply_accepted", <<h.mal, ev.r>>)
@@ -364,11 +387,35 @@ RefEND(sc, h, ev) ==
            ELSE IF ev.cat = "too_slow" THEN         \* RuntimeError of rt_strict
               Cond(RT(sc).on /\ RT(sc).strict, "C17_too_slow_error_without_rt_strict", <<ev.r>>)
               \o Cond(~RT(sc).instant, "C17_instant_run_reported_too_slow", <<"rt_strict">>)
-           ELSE IF ev.cat = "loop_guard" THEN Cond(guardJust, "C09_guard_fired_without_cause", <<ev.names, h.dem>>)
+           ELSE IF ev.cat = "loop_guard" THEN
+              Cond(guardJust, "C09_guard_fired_without_cause", <<ev.names, h.dem>>)
+              \o Cond(~guardJust \/ guardCount, "C09_guard_counts_hops_of_earlier_time_steps", <<ev.names, h.dem, h.atT>>)
            ELSE IF ev.cat = "cycle" THEN            \* rejected by the cycle check: C06 judges whether rightly so
               Cond(\A s \in Sids(sc) : h.nd[s] = 0, "C06_step_before_rejection", h.nd)
            ELSE Viol("C05_run_failed", <<ev.r, ev.cat>>)
   IN [h |-> h, v |-> v]
+
+\* Debug mode (World(debug=True)): the execution graph that mosaik records.  Its nodes are exactly the steps
+\* performed -- with the TIERED time the scheduler used, which the API boundary does not show otherwise -- and every
+\* edge is causal: a self-step edge goes forward in time, a data-flow edge respects the delay of a connection
+\* from the predecessor, an edge from an agent goes to the simulator that serves its asynchronous requests.
+\* (Not one of the listed properties; clauses EG_* are reported as conformance drift, never as a verdict.)
+EGEdgeOk(sc, e) ==
+  LET p == e[1]  tp == e[2]  s == e[3]  ts == e[4] IN
+  \/ p = s /\ TLess(tp, ts)
+  \/ \E i \in CIdx(sc) : LET c == Conn(sc, i) IN
+        \/ (c.src = p /\ c.dst = s /\ \E d \in WaitIvs(sc, c) : TLeq(Apply(tp, d), ts))
+        \/ (c.async /\ c.src = s /\ c.dst = p)
+\* Deviation of the code, modelled as such: before a serving simulator's step the debug hook adds an edge from the
+\* LAST step of each agent; an agent that has not stepped yet appears as a phantom node with time -1.
+EGPhantom(sc, n) == n[2][1] < 0 /\ \E i \in CIdx(sc) : Conn(sc, i).async /\ Conn(sc, i).dst = n[1]
+RefEG(sc, h, ev) ==
+  [h |-> h,
+   v |-> Cond(LET real == {n \in ev.nodes : ~EGPhantom(sc, n)} IN
+              IF ev.r = "ok" THEN real = h.steps ELSE h.steps \subseteq real,
+              "EG_nodes_are_not_the_steps_performed", <<ev.nodes \ h.steps, h.steps \ ev.nodes>>)
+         \o Cond(\A e \in ev.edges : <<e[1], e[2]>> \in ev.nodes /\ <<e[3], e[4]>> \in ev.nodes /\ EGEdgeOk(sc, e),
+                 "EG_edge_not_causal", {e \in ev.edges : ~EGEdgeOk(sc, e)})]
 
 RefStep(sc, h, ev) ==
   IF h.dead THEN [h |-> h, v |-> NoV]
@@ -378,6 +425,7 @@ RefStep(sc, h, ev) ==
          [] ev.k = "CB"  -> RefCB(sc, h, ev)
          [] ev.k = "END" -> RefEND(sc, h, ev)
          [] ev.k = "LOG" -> RefLOG(sc, h, ev)
+         [] ev.k = "EG"  -> RefEG(sc, h, ev)
          [] ev.k = "STOP" -> [h |-> [h EXCEPT !.stops[ev.s] = @ + 1], v |-> NoV]
          [] ev.k = "FAULT" -> [h |-> [h EXCEPT !.fault = IF @ = None THEN <<ev.s, ev.kind>> ELSE @], v |-> NoV]
          [] OTHER        -> [h |-> h, v |-> NoV]
